@@ -10,6 +10,7 @@ CONSTANTS
   Pass2Cancel = "fresh"
   Outermost = "flush"
   PropagateDespiteCycle = TRUE
+  Pass2ClearsDeps = FALSE
 SPECIFICATION Spec
 CHECK_DEADLOCK FALSE
 INVARIANTS CanonIffBisim
